@@ -320,6 +320,7 @@ pub fn load_equations(file: &dig::File, out: &mut CaseOut) {
 
 /// The oracle for arbitrary text, shared with the fuzz target: total + self-consistent.
 pub fn dig_text_oracle(text: &str, out: &mut CaseOut) -> Option<dig::File> {
+    out.owns_panics = true;
     match guarded(|| dig::File::parse(text)) {
         Err(p) => {
             out.fail(p.key(), format!("loading the document panicked: {p}"));
